@@ -51,9 +51,12 @@ ASSUMPTIONS = [
 BOUNDS = {
     'quick': 'scan: base tuple + *args/** variants per definition, 2 canary variants, all call forms, 6 attack strings; '
              '32 member/index/call templates x 8 names; compositions of all accepted direct calls (plain canary); '
-             'policy: 16 switch settings x 4 whitelists x 4 blacklists x 3 remappings x 10 names x 10 templates',
+             'policy: 16 switch settings x 4 whitelists x 4 blacklists x 3 remappings x 10 names x 10 templates; '
+             'sequences of two accesses (3 forms x 3 names, squared) to one object whose whitelist/blacklist entries were given as a list, tuple, '
+             'generator, iterator or filter object x 4 x 4 lists x 2 remappings; results that carry their own settings (instance-level, class-level, '
+             'the parent itself) reached by attribute, method and index from a parent with auto_yaqlize_result on/off',
     'thorough': 'scan: corpus star of 2 values per parameter; compositions for both canary variants; '
-                'policy: 16 x 8 whitelists x 8 blacklists x 4 remappings x 10 names x 10 templates',
+                'policy: 16 x 8 whitelists x 8 blacklists x 4 remappings x 10 names x 10 templates; sequences over all 9 x 9 lists',
 }
 
 OPTIONS = {'yaql.limitIterators': C.LIMIT}
@@ -605,6 +608,170 @@ def job_policy(tier, switches):
 
 
 # ---------------------------------------------------------------------------
+# part 2b: the same policy when the entries arrive in another kind of collection, over SEQUENCES of accesses to one
+# yaqlized object (the decision about a name does not depend on what was asked before)
+CONTAINERS = collections.OrderedDict([
+    ('list', list), ('tuple', tuple), ('generator', lambda entries: (e for e in entries)),
+    ('iterator', lambda entries: iter(list(entries))), ('filter', lambda entries: filter(None, list(entries))),
+])
+SEQ_ACCESS = [('$o.N', P.ATTRIBUTE), ('$o.N()', P.METHOD), ('$o[N]', P.INDEX)]
+SEQ_NAMES = ['foo', 'bar', 'meth']
+
+
+def observe_sequence(settings, container, texts):
+    o = Probe()
+    make = CONTAINERS[container]
+    yaqlization.yaqlize(o, yaqlize_attributes=True, yaqlize_methods=True, yaqlize_indexer=True, auto_yaqlize_result=False,
+                        whitelist=make(settings['whitelist']), blacklist=make(settings['blacklist']),
+                        attribute_remapping=dict(settings['remapping']))
+    out = []
+    for text in texts:
+        del PLOG[:]
+        try:
+            v = yq.evaluate(text, variables={'o': o}, options=OPTIONS)
+            v = 'Kid' if isinstance(v, Kid) else 'bound method' if callable(v) else v
+            out.append((('v', v), list(PLOG)))
+        except Exception as e:
+            out.append((('e', type(e).__name__), list(PLOG)))
+    return out
+
+
+def job_policy_sequences(tier, containers):
+    res = Result()
+    guard()
+    lists, remaps = policy_lists(tier)
+    steps = [(t, a, n) for (t, a) in SEQ_ACCESS for n in SEQ_NAMES]
+    for container in containers:
+        for w, b, r in itertools.product(lists, lists, remaps[:2]):
+            settings = settings_of((True, True, True, False), w, b, r)
+            for first, second in itertools.product(steps, repeat=2):
+                texts = [first[0].replace('N', first[2]), second[0].replace('N', second[2])]
+                case = {'kind': 'policy-sequence', 'container': container, 'w': w, 'b': b, 'r': r, 'texts': texts,
+                        'steps': [[first[1], first[2]], [second[1], second[2]]]}
+                res.case(('seq', container, w, b, r, texts[0], texts[1]))
+                exps = [expected(settings, st[1], st[2], (), False) for st in (first, second)]
+                obs = observe_sequence(settings, container, texts)
+                res.evaluations += 2
+                res.transitions += 2
+                if None in exps:
+                    res.out_of_domain += 1
+                    continue
+                res.nontrivial += 1
+                res.outcomes['sequence %s: %s then %s' % (container, P.decide(settings, first[1], first[2])[0],
+                                                          P.decide(settings, second[1], second[2])[0])] += 1
+                for i in (0, 1):
+                    if obs[i] != exps[i]:
+                        st = (first, second)[i]
+                        d = P.decide(settings, st[1], st[2])
+                        res.fail('policy: %s access of a sequence decided differently (entries given as %s): %s'
+                                 % (('first', 'second')[i], 'a one-shot iterator' if container in ('generator', 'iterator', 'filter')
+                                    else 'a ' + container, 'denied member reached' if d[0] == 'denied' else
+                                    'allowed member refused' if obs[i][0][0] == 'e' else 'mismatch'),
+                                 case, '%s then %s with whitelist=%s blacklist=%s remapping=%s as %s: step %d observed %r expected %r'
+                                 % (texts[0], texts[1], w, b, r, container, i + 1, obs[i], exps[i]))
+                        break
+    return res
+
+
+# part 2c: an access that returns an object carrying its OWN policy (yaqlized by the host as an instance, through its
+# class, or the parent itself): the result's own settings decide, whatever the parent's auto_yaqlize_result says
+class KidOwn(Kid):
+    ok = 'kid-ok'
+
+
+@yaqlization.yaqlize(blacklist=['foo'])
+class KidCls(object):
+    foo = 'kid-foo'
+    ok = 'kid-ok'
+
+    def __getattribute__(self, name):
+        if name not in INFRA:
+            PLOG.append(('kid', name))
+        return object.__getattribute__(self, name)
+
+
+class KidPlain(Kid):
+    ok = 'kid-ok'
+
+
+def make_kid(mode):
+    if mode == 'class-policy':
+        return KidCls()
+    if mode == 'instance-policy':
+        k = KidOwn()
+        yaqlization.yaqlize(k, blacklist=['foo'])
+        return k
+    return KidPlain()
+
+
+class Parent(Probe):
+    def __init__(self, mode):
+        Probe.__init__(self)
+        d = object.__getattribute__(self, '__dict__')
+        d['kid'] = make_kid(mode)
+        d['_mode'] = mode
+
+    def getkid(self, **kwargs):
+        PLOG.append(('call', 'getkid', sorted(kwargs.items())))
+        return make_kid(object.__getattribute__(self, '__dict__')['_mode'])
+
+    def getself(self):
+        PLOG.append(('call', 'getself', []))
+        return self
+
+    def __getitem__(self, key):
+        PLOG.append(('item', key))
+        return make_kid(object.__getattribute__(self, '__dict__')['_mode']) if key == 'kid' else 'i-%s' % (key,)
+
+
+OWN_PATHS = [('$o.kid', 'kid'), ('$o.getkid()', 'kid'), ('$o[kid]', 'kid'), ('$o.getself()', 'self')]
+
+
+def job_policy_own(tier):
+    res = Result()
+    guard()
+    for auto, pbl, mode, (path, what) in itertools.product((True, False), ((), ('food',)), ('plain', 'instance-policy', 'class-policy'),
+                                                           OWN_PATHS):
+        for member in (('foo', 'ok') if what == 'kid' else ('foo', 'food')):
+            text = '%s.%s' % (path, member)
+            case = {'kind': 'policy-own', 'auto': auto, 'parent_blacklist': list(pbl), 'mode': mode, 'text': text}
+            res.case(('own', auto, pbl, mode, text))
+            o = Parent(mode)
+            yaqlization.yaqlize(o, auto_yaqlize_result=auto, blacklist=list(pbl))
+            del PLOG[:]
+            try:
+                obs = ('v', yq.evaluate(text, variables={'o': o}, options=OPTIONS))
+            except Exception as e:
+                obs = ('e', type(e).__name__)
+            log = list(PLOG)
+            res.evaluations += 1
+            res.transitions += 1
+            res.nontrivial += 1
+            if what == 'self':
+                exp = ('e', 'AttributeError') if member in pbl else ('v', 'v-' + member)
+                reached = ('attr', member) in log
+            else:
+                if mode == 'plain':
+                    exp = ('v', 'kid-' + member) if auto else ('e', OFF_ERROR[P.ATTRIBUTE])
+                else:
+                    exp = ('e', 'AttributeError') if member == 'foo' else ('v', 'kid-' + member)
+                reached = ('kid', member) in log
+            res.outcomes['own policy %s %s -> %s' % (what, mode, exp[1] if exp[0] == 'e' else 'value')] += 1
+            if exp[0] == 'e' and reached:
+                res.fail('policy: member denied by the result\'s own settings reached through %s'
+                         % ('the parent returned by its own method' if what == 'self' else 'a parent with auto_yaqlize_result=%s' % auto),
+                         case, '%s (result %s, parent blacklist %r): observed %r, log %r, expected %r' % (text, mode, list(pbl), obs, log, exp))
+            elif obs != exp:
+                res.fail('policy: access to a result that carries its own settings: mismatch', case,
+                         '%s (result %s, parent auto=%s blacklist %r): observed %r expected %r' % (text, mode, auto, list(pbl), obs, exp))
+            for cls in (Kid, KidOwn, KidPlain, Probe, Parent):
+                if '__yaqlization__' in vars(cls):
+                    res.fail('policy: evaluation yaqlized the host class %s (every instance becomes reachable)' % cls.__name__, case, text)
+                    delattr(cls, '__yaqlization__')
+    return res
+
+
+# ---------------------------------------------------------------------------
 def jobs(tier, seed):
     out = []
     idents = [r.ident for r in scannable()]
@@ -617,6 +784,9 @@ def jobs(tier, seed):
             out.append(('compose-%s-%02d' % (variant, part), 'job_compose', (tier, variant, part, nparts)))
     for switches in itertools.product((True, False), repeat=4):
         out.append(('policy-%s' % ''.join('1' if s else '0' for s in switches), 'job_policy', (tier, list(switches))))
+    for container in CONTAINERS:
+        out.append(('policy-sequences-%s' % container, 'job_policy_sequences', (tier, [container])))
+    out.append(('policy-own', 'job_policy_own', (tier,)))
     return out
 
 
@@ -635,6 +805,16 @@ def replay(case):
         exp = expected(settings, access[1], case['name'], access[2], access[3])
         obs = observe_policy(settings, case['text'])
         return {'observed': repr(obs), 'expected': repr(exp), 'ok': exp is None or obs == exp}
+    if kind == 'policy-sequence':
+        settings = settings_of((True, True, True, False), case['w'], case['b'], case['r'])
+        exps = [expected(settings, a, n, (), False) for a, n in case['steps']]
+        obs = observe_sequence(settings, case['container'], case['texts'])
+        return {'observed': repr(obs), 'expected': repr(exps), 'ok': obs == exps}
+    if kind == 'policy-own':
+        r = job_policy_own('quick')
+        hit = [f.detail for f in r.failures.values() if f.case['text'] == case['text'] and f.case['mode'] == case['mode']
+               and f.case['auto'] == case['auto'] and f.case['parent_blacklist'] == case['parent_blacklist']]
+        return {'observed': hit or 'as the result\'s own settings say', 'expected': "the result's own settings decide", 'ok': not hit}
     if kind == 'form':
         out, found = run(case['text'], {'c': VARIANTS[case['variant']]()})
         ok = not found
